@@ -100,6 +100,9 @@ func (s *Server) Initialize(ctx context.Context, params *protocol.InitializePara
 
 	if s.rootURI != "" {
 		s.workspace = workspace.NewWorkspace(s.rootURI, s.loader)
+		s.workspace.SetOpenTextSource(func(path string) (string, bool) {
+			return s.GetDocument(pathToURI(path))
+		})
 	}
 
 	settings := s.getSettings()
